@@ -73,7 +73,8 @@ impl TryFrom<&[u8]> for Request {
 
     #[expect(clippy::as_conversions)]
     fn try_from(value: &[u8]) -> Result<Self, Self::Error> {
-        if value.len() < REQUEST_HEADER_LEN {
+        // the header is CLA INS P1 P2 followed by the three bytes of the extended length
+        if value.len() <= REQUEST_HEADER_LEN {
             return Err(ResponseStatusWords::WrongLength);
         }
 
@@ -88,8 +89,10 @@ impl TryFrom<&[u8]> for Request {
         // array of len 4. Technically the first of these bytes is `p2` the second parameter,
         // but in the base U2F spec this will always be 0. So this length is safe.
         let data_len = u32::from_be_bytes(value[3..data_start].try_into().unwrap()) as usize;
-        let data_end = data_start + data_len;
-        let payload = &value[data_start..data_end];
+        let payload = data_start
+            .checked_add(data_len)
+            .and_then(|data_end| value.get(data_start..data_end))
+            .ok_or(ResponseStatusWords::WrongLength)?;
 
         let data = match ins {
             Command::Register => RequestPayload::Register(
@@ -98,10 +101,16 @@ impl TryFrom<&[u8]> for Request {
                     // Wrong length because it must be two SHA256's which are 32 bytes each
                     .map_err(|_| ResponseStatusWords::WrongLength)?,
             ),
-            Command::Authenticate => RequestPayload::Authenticate(
-                AuthenticationRequest::try_from(payload, p1)
-                    .map_err(|_| ResponseStatusWords::WrongLength)?,
-            ),
+            Command::Authenticate => {
+                // only the control bytes of the specification have a meaning
+                if !matches!(p1, 0x03 | 0x07 | 0x08) {
+                    return Err(ResponseStatusWords::WrongData);
+                }
+                RequestPayload::Authenticate(
+                    AuthenticationRequest::try_from(payload, p1)
+                        .map_err(|_| ResponseStatusWords::WrongLength)?,
+                )
+            }
             Command::Version => RequestPayload::Version,
             Command::Unsuported(_) => return Err(ResponseStatusWords::InsNotSupported),
         };
